@@ -573,6 +573,10 @@ class Ctx:
     self.prims_seen = set()
     self.uf_apps = []
     self.sqrt_memo = {}
+    self.abstract_minmax = False
+    self.floor_range = None       # (lo, hi) ints: floor/ceil of symbolic reals as ite chains; range recorded as obligation
+    self.side_obligations = []
+    self.minmax_memo = {}
 
   def key_code(self, key):
     if key not in self.key_codes:
@@ -617,6 +621,26 @@ class Ctx:
     self.facts += [s >= 0, s * s == canon]
     self.sqrt_memo[k] = (canon, s)   # keep canon alive so the id stays unique
     return s
+
+  def extremum(self, elems, is_max):
+    """max/min of finite symbolic reals as a fresh variable with defining facts (no nested ite chain)."""
+    key = (is_max, tuple(e.get_id() if is_z(e) else ('c', e) for e in elems))
+    if key in self.minmax_memo:
+      return self.minmax_memo[key]
+    m = z3.Real('%s!%d' % ('max' if is_max else 'min', next(self.fresh)))
+    zs = [zreal(e) for e in elems]
+    self.facts += [(m >= e if is_max else m <= e) for e in zs] + [z3.Or(*[m == e for e in zs])]
+    self.minmax_memo[key] = m
+    return m
+
+  def bounded_floor(self, a, ceil=False):
+    lo, hi = self.floor_range
+    za = zreal(a)
+    self.side_obligations.append(z3.And(za >= lo, za <= hi))
+    r = z3.RealVal(lo)
+    for k in range(lo + 1, hi + 1):
+      r = z3.If((za > k - 1) if ceil else (za >= k), z3.RealVal(k), r)
+    return r
 
   def trans(self, fn, a):
     """exp/log/tanh/logistic as uninterpreted functions with ground axiom instances."""
@@ -1187,6 +1211,14 @@ class Interp:
       return [ew(f_abs, *lifted())]
     if p == 'sign':
       return [ew(f_sign, *lifted())]
+    if p in ('floor', 'ceil') and ctx.floor_range is not None:
+      def bf(a):
+        if isinstance(a, XR):
+          return mk(bf(a.v), a.nan, a.pinf, a.ninf)
+        if not is_z(a):
+          return f_floor(a) if p == 'floor' else f_ceil(a)
+        return ctx.bounded_floor(a, ceil=(p == 'ceil'))
+      return [ew(bf, *lifted())]
     if p == 'floor':
       return [ew(f_floor, *lifted())]
     if p == 'ceil':
@@ -1302,12 +1334,14 @@ class Interp:
     if p == 'reduce_prod':
       (a,) = lifted()
       return [_reduce(f_mul, 1 if okind == 'i' else Fraction(1), a, params['axes'])]
-    if p == 'reduce_max':
+    if p in ('reduce_max', 'reduce_min'):
       (a,) = lifted()
-      return [_reduce(f_max, None, a, params['axes'])]
-    if p == 'reduce_min':
-      (a,) = lifted()
-      return [_reduce(f_min, None, a, params['axes'])]
+      if ctx.abstract_minmax and okind == 'f' and len(params['axes']) == a.ndim and a.size > 1 and \
+         not any(isinstance(e, XR) for e in a.reshape(-1)):
+        out = np.empty((), dtype=object)
+        out[()] = ctx.extremum(list(a.reshape(-1)), p == 'reduce_max')
+        return [out]
+      return [_reduce(f_max if p == 'reduce_max' else f_min, None, a, params['axes'])]
     if p == 'reduce_and':
       (a,) = lifted()
       return [_reduce(B_and, True, a, params['axes'])]
